@@ -1121,7 +1121,7 @@ mod if_alloc {
         /// Verification hook: keeps the shared state alive and observable
         /// without counting as a sender or receiver handle.
         #[cfg(futures_intrusive_verif)]
-        pub struct VerifPeek<MutexType, T, A>
+        pub struct MpmcVerifPeek<MutexType, T, A>
         where
             MutexType: RawMutex,
             A: RingBuf<Item = T>,
@@ -1131,7 +1131,7 @@ mod if_alloc {
         }
 
         #[cfg(futures_intrusive_verif)]
-        impl<MutexType, T, A> VerifPeek<MutexType, T, A>
+        impl<MutexType, T, A> MpmcVerifPeek<MutexType, T, A>
         where
             MutexType: RawMutex,
             A: RingBuf<Item = T>,
@@ -1161,8 +1161,8 @@ mod if_alloc {
             A: RingBuf<Item = T>,
         {
             /// Verification hook: an uncounted reference to the shared state
-            pub fn verif_peek(&self) -> VerifPeek<MutexType, T, A> {
-                VerifPeek {
+            pub fn verif_peek(&self) -> MpmcVerifPeek<MutexType, T, A> {
+                MpmcVerifPeek {
                     inner: self.inner.clone(),
                 }
             }
